@@ -89,13 +89,21 @@ def main(argv=None):
             specs = unit.kani if isinstance(unit.kani, list) else ([unit.kani] if unit.kani is not None else [])
             specs = [sp for sp in specs if sp is not None and sp.harnesses]
             all_harnesses = [h for sp in specs for h in sp.harnesses]
+            # the quick tier must end well inside 15 minutes whatever the tree looks like: the Kani runs
+            # share what is left of the budget (a harness cut by it is undecided, never an alarm)
+            budget = float(os.environ.get("VERIF_QUICK_BUDGET_S", "780")) if tier != "thorough" else None
+            todo_specs = [sp for sp in specs if [h for h in sp.harnesses if tier == "thorough" or getattr(h, "tier", "quick") != "thorough"]]
             for sp in specs:
                 hs = [h for h in sp.harnesses if tier == "thorough" or getattr(h, "tier", "quick") != "thorough"]
                 if not hs:
                     continue
                 kr = None
+                deadline = None
+                if budget is not None:
+                    remaining_specs = len(todo_specs) - todo_specs.index(sp)
+                    deadline = time.time() + max(20.0, (t0 + budget - time.time()) / remaining_specs)
                 try:
-                    kr = krun.run(sp, hs)
+                    kr = krun.run(sp, hs, deadline=deadline)
                 except rsx.LostAnchor as e:
                     undecided.append(f"lost anchor (kani): {e}")
                 if kr is not None:
